@@ -349,7 +349,7 @@ def make_diff_sweep(rng, idx):
     k = idx // len(snips)
     kind = corpus.ELEMENTARY[k % len(corpus.ELEMENTARY)]
     version = corpus.VERSIONS[(k // len(corpus.ELEMENTARY) + idx) % len(corpus.VERSIONS)]
-    nl = max(1, len(corpus.splitlines(S)))
+    nl = max(1, len(corpus.splitlines_cr(S)))
     cfg = {'files': ['src/mod.py'], 'grammars': [version], 'cdirs': 1, 'nproc': 1, 'gran': 0.0, 'tick': 0.0,
            'size_trigger': 600, 'min_survival': 600, 'bufsize': 8192, 'max_write': 0, 'max_read': 0, 'warmup': 3.0,
            'p_yield': 0.0, 'p_fault': 0.0, 'debug_diff': False, 'sweep': [idx % len(snips), kind]}
